@@ -7,6 +7,7 @@ import (
 	"strings"
 
 	"github.com/wollac/iota-crypto-demo/pkg/bech32"
+	"github.com/wollac/iota-crypto-demo/pkg/bech32/address"
 
 	"verifharness/core"
 	rb "verifharness/ref/bech32"
@@ -260,6 +261,18 @@ func runC04(c *core.Ctx) {
 			r += 250
 		} else if !th && r >= 0x800 {
 			r += 2 // quick: every third code point above U+0800 (3 and 256 are coprime: every low byte occurs in every block)
+		}
+	}
+	// consumers of Decode inside the repository must cope with everything Decode accepts: valid strings with no or very
+	// little data through address.ParseBech32 (an error is fine, a panic is not)
+	for _, h := range []string{"iota", "atoi", "smr", "rms", "a"} {
+		for _, sym := range [][]byte{nil, {0}, {31}, {0, 0}, {0, 0, 0}, {1, 0}} {
+			for _, v := range []string{rb.EncodeSymbols(h, sym), rb.Upper(rb.EncodeSymbols(h, sym))} {
+				if p := core.Catch(func() { address.ParseBech32(v) }); p != nil {
+					c.Violate("C04/consumer/ParseBech32-panic", fmt.Sprintf("address.ParseBech32(%q), a valid Bech32 string with %d data symbols, panics: %v", v, len(sym), p), v, "", nil)
+				}
+				c.Eval(1)
+			}
 		}
 	}
 	c.Set("accepted_by_symbol_count", fmt.Sprint(validBySymLen))
